@@ -1,0 +1,40 @@
+//go:build verif
+
+package types
+
+// Contracts for the verification machinery in /verif (comment-only file; no code).
+//
+// The ABI coders go through go-ethereum's reflective abi package and encoding/json;
+// their bodies are outside the verified subset, so their contracts are *assumed*
+// (trusted) and say only that they are deterministic functions of their input.
+//
+// verif:spec decodeOK(bz []byte) bool
+// verif:spec decodedPacket(bz []byte) Packet
+// verif:spec abiPackOK(p Packet) bool
+// verif:spec abiPack(p Packet) []byte
+// verif:spec ackDecodeOK(bz []byte) bool
+// verif:spec decodedAck(bz []byte) Acknowledgement
+// verif:spec ackPackOK(a Acknowledgement) bool
+// verif:spec ackPack(a Acknowledgement) []byte
+
+// verif:func (*Packet).ABIDecode
+//@ trusted go-ethereum abi.Arguments.Unpack + encoding/json round trip: a deterministic partial function of the bytes
+//@ modifies *p
+//@ ensures [ok-iff]  (result == nil) <==> decodeOK(bz)
+//@ ensures [decoded] result == nil ==> *p == decodedPacket(bz)
+
+// verif:func (Packet).ABIPack
+//@ trusted go-ethereum abi.Arguments.Pack: a deterministic partial function of the packet
+//@ ensures [ok-iff] (err == nil) <==> abiPackOK(p)
+//@ ensures [packed] err == nil ==> result == abiPack(p) && result != nil
+
+// verif:func (*Acknowledgement).ABIDecode
+//@ trusted go-ethereum abi.Arguments.Unpack + encoding/json round trip
+//@ modifies *ack
+//@ ensures [ok-iff]  (result == nil) <==> ackDecodeOK(bz)
+//@ ensures [decoded] result == nil ==> *ack == decodedAck(bz)
+
+// verif:func (Acknowledgement).ABIPack
+//@ trusted go-ethereum abi.Arguments.Pack
+//@ ensures [ok-iff] (err == nil) <==> ackPackOK(ack)
+//@ ensures [packed] err == nil ==> result == ackPack(ack) && result != nil
